@@ -328,7 +328,7 @@ func bytesTupleMatcher(match func(index int, b byte)) TupleMatcher {
 	return NewTupleMatcher(
 		map[string]Matcher{
 			"@":           MatchInt(func(i int) { index = i; check() }),
-			BytesByteAttr: MatchInt(func(i int) { b = byte(i); check() }),
+			BytesByteAttr: MatchIntIn(0, 0xFF, func(i int) { b = byte(i); check() }),
 		},
 		Lit(EmptyTuple),
 	)
